@@ -150,8 +150,8 @@ PROPS = {
         "needs_bin": True,
         "quick": cfg(16, 60, timeout_factor=6),
         "thorough": cfg(16, 900, timeout_factor=3),
-        "rule": "websocket sessions against the real `adlt remote` binary (one server per worker, restarted every 8 sessions with a different pacing: parser pause 5-45 us per message or channel capacity 1/2/16 through hook H4): histories of 5-60 commands drawn from a grammar over open (small file, 150 000-message file = parsing in progress, zip archive, text file named .zip, truncated zip; 1/5 with plugin settings: valid, unknown plugin, wrong typed or unreadable directories; 1/6 of the sessions start with a script: open 200-500 copies of the repository's lc_ex002.zip plus a 30 MB archive, create a stream at once and use its id in well-formed and malformed id commands, so that they arrive while the archives are still being extracted)/close/pause/resume/stream/query/stop/stream_change_window/stream_binary_search/stream_search/plugin_cmd/fs (stat/readDirectory/unknown sub-commands on directories and on archive paths `<archive>!/<path within>` of a valid zip, a text file named .zip and a truncated zip) with live, stale, foreign and malformed ids, missing arguments, broken JSON, wrong JSON types, empty and unknown commands. Client-side session model {file open, live stream ids, live query ids}; after each command exactly one reply frame (ok:/err: naming the command, or the unknown-command notice) within 60 s, replies agree with the model where it is determinate, a final 500 ms quiet period contains no reply, the process is alive and its stderr has no panic. Non-trivial = history with >=1 malformed and >=1 stateful command; distinct = de-duplicated command-kind sequence.",
-        "floors": {"quick": {"evaluations": 150, "distinct_nontrivial": 100, "commands": 5000, "closes_while_file_open": 200, "cmd_search_malformed": 100, "cmd_stream-bad_malformed": 100, "cmd_change_window": 150, "sessions_with_commands_during_archive_extraction": 20}, "thorough": {"evaluations": 4000, "distinct_nontrivial": 2000}},
+        "rule": "websocket sessions against the real `adlt remote` binary (one server per worker, restarted every 8 sessions with a different pacing: parser pause 5-45 us per message or channel capacity 1/2/16 through hook H4): histories of 5-60 commands drawn from a grammar over open (small file, 150 000-message file = parsing in progress, zip archive, text file named .zip, truncated zip; 1/5 with plugin settings: valid, unknown plugin, wrong typed or unreadable directories; 1/6 of the sessions start with a script: open 200-500 copies of the repository's lc_ex002.zip plus a 30 MB archive, create a stream at once and use its id in well-formed and malformed id commands, so that they arrive while the archives are still being extracted; 1/8 of the other sessions start with open, pause, 2-4 queries (or a stream), resume, so that several queries end in the same server round)/close/pause/resume/stream/query/stop/stream_change_window/stream_binary_search/stream_search/plugin_cmd/fs (stat/readDirectory/unknown sub-commands on directories and on archive paths `<archive>!/<path within>` of a valid zip, a text file named .zip and a truncated zip) with live, stale, foreign and malformed ids, missing arguments, broken JSON, wrong JSON types, empty and unknown commands. Client-side session model {file open, live stream ids, live query ids}; after each command exactly one reply frame (ok:/err: naming the command, or the unknown-command notice) within 60 s, replies agree with the model where it is determinate, a final 500 ms quiet period contains no reply, the process is alive and its stderr has no panic. Non-trivial = history with >=1 malformed and >=1 stateful command; distinct = de-duplicated command-kind sequence.",
+        "floors": {"quick": {"evaluations": 150, "distinct_nontrivial": 100, "commands": 5000, "closes_while_file_open": 200, "cmd_search_malformed": 100, "cmd_stream-bad_malformed": 100, "cmd_change_window": 150, "sessions_with_commands_during_archive_extraction": 20, "sessions_with_queries_created_while_paused": 15}, "thorough": {"evaluations": 4000, "distinct_nontrivial": 2000}},
         "assumptions": ["ids of queries disappear asynchronously when they are done: for query ids only 'a reply arrives' is checked, not found/not-found", "a reply missing after 60 s on a machine that is otherwise responsive is a violation; failure to start or connect to the server is inconclusive"],
     },
     "C16": {
@@ -159,7 +159,7 @@ PROPS = {
         "needs_bin": True,
         "quick": cfg(16, 75, timeout_factor=6),
         "thorough": cfg(16, 900, timeout_factor=3),
-        "rule": "first third of the budget, library level: StreamContext built from JSON (stream/query, 0-3 enabled filters of every kind, windows) driven exactly as the server loop drives process_stream_new_msgs, with arrival batches {0, 1, chunk-1, chunk, chunk+1, random} and chunk limits {1,2,7,63,64,65,1000,3M}; after EVERY step filtered_msgs must equal the specification's matches below all_msgs_last_processed_len (queries truncated to window end). Rest of the budget, binary level: sessions against `adlt remote` (parser pacing / small channels through hook H4) on generated logs of 37/700/20000 verbose messages: stream and query windows (empty, beyond the end, whole, inside), streams created before and after parsing finished, window changes (new id), search paging with page sizes 1-50 (or 1/2..1/10 of the stream) from arbitrary start positions until next_search_idx is absent, index lookups and (on a 500-message single-lifecycle log) time lookups; 1/3 of the sessions open the file time sorted (the ECUs of the logs have different uptimes, i.e. lifecycles with different start times, while the sorted order equals the file order); delivered DltMsgs are compared field by field with the file (index, reception time, timestamp, ecu/apid/ctid, mcnt, htyp, type, noar, text) and must not precede the ok: reply announcing their stream id; 1/4 of the streams run in text mode (\"binary\":false): every `stream:<id> msg(<pos>):<header>` line must carry the announced id, consecutive stream positions from the window start and the header text of the expected file message. Non-trivial = library history with active filters and more messages than the chunk limit / complete binary session; distinct = (kind, chunk, filters, size, window class) resp. session shapes.",
+        "rule": "first third of the budget, library level: StreamContext built from JSON (stream/query, 0-3 enabled filters of every kind, windows) driven exactly as the server loop drives process_stream_new_msgs, with arrival batches {0, 1, chunk-1, chunk, chunk+1, random} and chunk limits {1,2,7,63,64,65,1000,3M}; after EVERY step filtered_msgs must equal the specification's matches below all_msgs_last_processed_len (queries truncated to window end). Rest of the budget, binary level: sessions against `adlt remote` (parser pacing / small channels through hook H4) on generated logs of 37/700/20000 verbose messages: stream and query windows (empty, beyond the end, whole, inside; on the 20000-message log half of the queries ask for everything), streams created before and after parsing finished, window changes (new id), search paging with page sizes 1-50 (or 1/2..1/10 of the stream) from arbitrary start positions until next_search_idx is absent, index lookups and (on a 500-message single-lifecycle log) time lookups; 1/3 of the sessions open the file time sorted (the ECUs of the logs have different uptimes, i.e. lifecycles with different start times, while the sorted order equals the file order); delivered DltMsgs are compared field by field with the file (index, reception time, timestamp, ecu/apid/ctid, mcnt, htyp, type, noar, text) and must not precede the ok: reply announcing their stream id; 1/4 of the streams run in text mode (\"binary\":false): every `stream:<id> msg(<pos>):<header>` line must carry the announced id, consecutive stream positions from the window start and the header text of the expected file message. Non-trivial = library history with active filters and more messages than the chunk limit / complete binary session; distinct = (kind, chunk, filters, size, window class) resp. session shapes.",
         "floors": {"quick": {"evaluations": 20000, "distinct_nontrivial": 300, "bin_sessions": 50, "windows_checked": 100, "window_changes_checked": 60, "searches_checked": 40, "lookups_checked": 50, "messages_compared_field_by_field": 2000, "sessions_on_time_sorted_files": 10}, "thorough": {"evaluations": 200000, "distinct_nontrivial": 1000, "bin_sessions": 2000}},
         "assumptions": ["queries are issued after the file was parsed (a query issued while arrival stalls is ended by the server on its first idle poll: documented design, not part of the statement)", "time lookups are checked on the monotonic log only (one ECU, one lifecycle, calculated time strictly increasing), index lookups on all logs", "a window wait that times out while the server is still parsing (slow pacing) is inconclusive"],
     },
